@@ -2,7 +2,7 @@
 # apply_fix.sh <fix dir under /tmp/fixes/r10> <pkg dir of the repro test> <go test flags or ""> : verify a delivered fix in /tmp/vfy
 # (repro fails before, passes after, package tests pass after); prints a verdict. Does NOT touch /repo.
 export GOFLAGS=-mod=mod GOPROXY=off GOSUMDB=off GOTOOLCHAIN=local GOWORK=off
-d=/tmp/fixes/r10/$1; pkg=$2; flags=$3
+d=${FIXROOT:-/tmp/fixes/r10}/$1; pkg=$2; flags=$3
 cd /tmp/vfy && git checkout -q -- . && git clean -fdq && git checkout -q --detach $(git -C /repo rev-parse HEAD) || exit 2
 find $d -name '*_test.go' | while read t; do
   rel=$(dirname "${t#$d/}"); if [ "$rel" = "." ]; then cp $t $pkg/; else mkdir -p $rel; cp $t $rel/; fi
